@@ -63,10 +63,15 @@ def _resolve(expr: ast.AST, env: Dict[str, ast.AST], oracle: Oracle) -> ast.AST:
 
     class Fold(ast.NodeTransformer):
         def visit_IfExp(self, node: ast.IfExp):
-            node = self.generic_visit(node)
-            res = peval(node.test, lambda e: oracle(e, env))
+            # lazily, like the language: the test first, then only the selected arm (an inner test may be
+            # meaningless - a TypeError - on the cases the outer test excludes)
+            test = self.visit(node.test)
+            res = peval(test, lambda e: oracle(e, env))
             if isinstance(res, bool):
-                return node.body if res else node.orelse
+                return self.visit(node.body if res else node.orelse)
+            node.test = test
+            node.body = self.visit(node.body)
+            node.orelse = self.visit(node.orelse)
             return node
 
     return Fold().visit(expr)
